@@ -750,6 +750,13 @@ func c11Run(c *lib.Ctx) {
 		c.Rep.Exhaustive = false
 		c.Rep.Cap = fmt.Sprintf("%s: execution cap %d reached", sc.Name, e.MaxExecs)
 	}
+	if e.Stuck {
+		// not a verdict: the code blocks on something the scheduler does not control (e.g. a channel)
+		c.Rep.Exhaustive = false
+		c.Rep.Cap = sc.Name + ": an execution blocked outside the controlled scheduler; schedule exploration of this scenario abandoned (race pass still run)"
+		c.Note("%s", c.Rep.Cap)
+	}
+	c.Count("goroutines_spawned_by_code_under_test:"+sc.Name, int64(e.Spawned))
 	if e.Diverged != "" {
 		c.Fail("%s: %s", sc.Name, e.Diverged)
 	}
